@@ -464,6 +464,7 @@ class Hist:
         self.err = err
         self.hdr, self.per, self.exit_ev, self.exit_seen, self.tail_ev = parse_real(out)
         self.problems = []      # (kind, text) property-level failures
+        self.completed = 0      # commands replayed (set by analyse; stays 0 when the driver printed no header)
         self.model_lines = []   # model script
         self.expect = []        # per compared model line: dict of real observations
         self.stats = {"collect_ops": 0, "implicit": 0, "objects": 0, "finalized": 0, "freed": 0, "extras": 0,
@@ -842,6 +843,11 @@ def run_histories(ctx, binary, model, hists, label):
         name, ops = item
         rc, out, err = run_real(binary, ops)
         h = Hist(ops, rc, out, err)
+        if not h.hdr:
+            # the driver did not even print its header (before the first command): the process could not start or was
+            # killed by the time limit on an overloaded machine.  Run it once more; a second failure is reported.
+            rc, out, err = run_real(binary, ops)
+            h = Hist(ops, rc, out, err)
         h.name = name
         h.exact_roots = label != "asan"
         h.analyse()
